@@ -59,6 +59,13 @@ class SymNP(types.ModuleType):
         return np.sqrt(x)
 
     @staticmethod
+    def arange(n, *a, **k):
+        if isinstance(n, SInt):
+            from vcgen.idx import IRange
+            return IRange(n)
+        return np.arange(n, *a, **k)
+
+    @staticmethod
     def isclose(a, b, *args, **k):
         return np.isclose(a, b, *args, **k)
 
